@@ -130,7 +130,7 @@ impl S {
             std::env::set_var("NERVUSDB_HNSW_EF_SEARCH", efs);
         }
         self.eng = None;
-        self.dir = Some(tempfile::tempdir().expect("tempdir"));
+        self.dir = Some(crate::util::scratch_dir());
         self.shadow.clear();
         self.deleted.clear();
         self.recent.clear();
